@@ -357,3 +357,29 @@ CHECKS["C17"] = {
                   "each under catch_unwind: Ok must coincide with an independently written predicate of the documented domain, and whenever a constructor succeeds the accessors must return exactly what was requested.",
     "level_note": "Finite space enumerated completely (exhaustive for the stated bounds). Trusted: the harness's domain predicates.",
 }
+
+CHECKS["C16"] = {
+    "title": "Decoding and verification never panic on untrusted input",
+    "level": "exploration",
+    "technique": "runtime monitoring in sandboxed child processes: hostile decoder/verifier inputs under catch_unwind with an allocation-tracking global allocator (peak / largest request vs a linear bound) and a logical step counter over the free-module group; abnormal child exit attributed to the announced case; checked and plain builds; thorough adds an AddressSanitizer build",
+    "design_ref": "DESIGN.md section 4 C16",
+    "legs": [
+        {"name": "fm", "shards": 16},
+        {"name": "ris", "shards": 16},
+        {"name": "ris-plain", "leg": "ris", "build": "plain", "shards": 16, "args": ["profile=plain"]},
+        {"name": "ris-asan", "leg": "ris", "build": "asan", "shards": 16, "tiers": ["thorough"], "args": ["profile=asan"],
+         "env": {"ASAN_OPTIONS": "halt_on_error=1:abort_on_error=1:detect_leaks=0:allocator_may_return_null=1"}},
+    ],
+    "rule": "one case = one hostile input: byte strings into from_bytes / serde (random, truncated, wrong tag, 1 MiB, 2^16 rounds, lying length prefix); every proof shape (degree 1..6 x rounds 1..70, 31..33, 63..65, 128, 255, 2^12, 2^16) "
+            "against 8 statement shapes x degree 1..6 x promise/seed/mode variants; identity, undecodable and non-canonical points and zero scalars at every position of honest proofs; batch shapes with mismatched sequence lengths, "
+            "mixed capacities / degrees / bit lengths; honest proofs against hostile statements; non-trivial = the call under observation ran in the sandbox with the monitors armed; distinct = distinct case numbers per leg",
+    "require": {"quick": {"hostile_cases": 60000, "cases_decode": 12000, "cases_shape": 12000, "cases_element": 5000, "cases_batch": 12000, "cases_statement": 5000, "allocations_tracked": 1000000},
+                "thorough": {"hostile_cases": 800000, "cases_decode": 150000, "cases_shape": 150000, "cases_element": 60000, "cases_batch": 150000, "cases_statement": 60000, "allocations_tracked": 10000000}},
+    "deadline_s": {"quick": 1500, "thorough": 10000},
+    "assumptions": COMMON_ASSUMPTIONS + ["'time proportional to the input size' is decided on logical steps (scalar x coordinate multiplications over the free-module group) and on allocation sizes, with linear bounds and generous constants; the wall-clock watchdog only yields INCONCLUSIVE",
+                                         "statements are built through the validating constructors; Pedersen generator fields are not tampered with here"],
+    "level_text": "Feeds the real decoder and verifier tens of thousands of hostile inputs inside child processes (checked build with overflow checks and debug assertions, and the plain release build; Ristretto for the real backend "
+                  "assertions, free-module group for step counting): no panic (catch_unwind), no abnormal process exit (abort, stack overflow, allocation failure), largest single allocation and peak live bytes within a linear "
+                  "bound of input size and table size, logical steps within a linear bound. Thorough repeats the Ristretto workload under AddressSanitizer.",
+    "level_note": "Held on the executed inputs. A clean sanitizer run is not memory safety; the library has no unsafe code of its own, the sanitizer leg covers the dependencies' unsafe reached from hostile input.",
+}
